@@ -66,8 +66,11 @@ def table_v(ctx: Ctx, chk) -> None:
     init = ctx.inl(gw.find_method("__init__"))  # a shared "apply protocol" helper is judged written out
     chk.instance(rule)
     cn = Canon(I, init)
-    prot = [n for n in ctx.own_nodes(init) if isinstance(n, ast.Assign) and any(norm(t) == "self._protocol" for t in n.targets)]
-    ver = [n for n in ctx.own_nodes(init) if isinstance(n, (ast.Assign, ast.AnnAssign)) and norm(n.targets[0] if isinstance(n, ast.Assign) else n.target) == "self._protocol_version"]
+    from .common import state_attrs
+
+    sa_ = state_attrs(ctx)
+    prot = [n for n in ctx.own_nodes(init) if isinstance(n, ast.Assign) and any(norm(t) == f"self.{sa_['protocol']}" for t in n.targets)]
+    ver = [n for n in ctx.own_nodes(init) if isinstance(n, (ast.Assign, ast.AnnAssign)) and norm(n.targets[0] if isinstance(n, ast.Assign) else n.target) == f"self.{sa_['version']}"]
     ok = len(prot) == 1 and cn.canon(prot[0].value) in ("get_protocol('1.4')",) and len(ver) == 1 and isinstance(ver[0].value, ast.Constant) and ver[0].value.value is None
     setp = [n for n in ctx.own_nodes(init) if isinstance(n, ast.Call) and norm(n.func).endswith(".set_protocol")]
     ok = ok and len(setp) == 1 and canon_sa(ctx, cn, init, setp[0].args[0]) == "get_protocol('1.4')"
@@ -300,13 +303,16 @@ def copies1(ctx: Ctx, chk) -> None:
     rule = "COPIES-1"
     chk.rule(rule, "the three copies of 'which protocol is active' (_protocol_version, _protocol, schema context) are written only by Gateway.__init__, the protocol_version setter and MessageSchema.set_protocol, and every write of _protocol is followed on all normal paths by set_protocol with the same value")
     n = 0
+    from .common import state_attrs
+
+    sa_ = state_attrs(ctx)
     for f in ctx.prog.all_functions():
         for node in ctx.own_nodes(f):
             if isinstance(node, (ast.Assign, ast.AnnAssign, ast.AugAssign)):
                 targets = node.targets if isinstance(node, ast.Assign) else [node.target]
                 for t in targets:
                     w = None
-                    if isinstance(t, ast.Attribute) and t.attr in ("_protocol", "_protocol_version"):
+                    if isinstance(t, ast.Attribute) and t.attr in (sa_["protocol"], sa_["version"]):
                         w = t.attr
                     if isinstance(t, ast.Subscript) and isinstance(t.slice, ast.Constant) and t.slice.value == "protocol" and norm(t.value).endswith("context"):
                         w = "context['protocol']"
@@ -323,7 +329,7 @@ def copies1(ctx: Ctx, chk) -> None:
     gw = ctx.cls(GW)
     for fl in gw.mro_methods().values():
         for f in fl:
-            stores = [s for s in ctx.own_nodes(f) if isinstance(s, ast.Assign) and any(isinstance(t, ast.Attribute) and t.attr == "_protocol" for t in s.targets)]
+            stores = [s for s in ctx.own_nodes(f) if isinstance(s, ast.Assign) and any(isinstance(t, ast.Attribute) and t.attr == sa_["protocol"] for t in s.targets)]
             if not stores:
                 continue
             g = CFG(f.node)
